@@ -35,6 +35,10 @@ pub struct Case {
     /// one more L0 chunk whose rows straddle the boundary between hour B and the hour after it
     #[serde(default)]
     pub straddle: bool,
+    /// size spread: bit 0 = the first (oldest) L1 chunk is several times larger than the others, bit 1 = the last L1
+    /// chunk is, bit 2 = the first L0 chunk of hour A is (a large chunk reaches a level's target size on its own)
+    #[serde(default)]
+    pub big: u8,
 }
 
 const MAX_CYCLES: usize = 8;
@@ -65,17 +69,28 @@ async fn run_case(c: &Case) -> Result<(usize, usize), Fail> {
         (c.l1, hour_bucket(now) - 5 * HOUR + 60_000_000_000, "l1", 1),
         (c.l2, hour_bucket(now) - 7 * HOUR + 60_000_000_000, "l2", 2),
     ];
+    let mut big_size = 0u64;
     for (n, base_ts, prefix, lvl) in spec {
         for i in 0..n {
-            let rows: Vec<Row> = (0..2)
+            let is_big = (prefix == "l1" && ((c.big & 1 != 0 && i == 0) || (c.big & 2 != 0 && i + 1 == n))) || (prefix == "l0a" && c.big & 4 != 0 && i == 0);
+            let rows: Vec<Row> = (0..if is_big { 120 } else { 2 })
                 .map(|k| {
                     id += 1;
-                    row(base_ts + (i as i64) * 1_000_000 + k, id)
+                    let mut r = row(base_ts + (i as i64) * 1_000_000 + k, id);
+                    if is_big {
+                        // poorly compressible label values, so that the object really is several times larger
+                        r.host = Some(format!("{:016x}{:016x}{:016x}", (id as u64).wrapping_mul(0x9E37_79B9_7F4A_7C15), (id as u64).wrapping_mul(0xC2B2_AE3D_27D4_EB4F), (id as u64).wrapping_mul(0x1656_67B1_9E37_79F9)));
+                    }
+                    r
                 })
                 .collect();
             let p = format!("t/data/{prefix}_{i}.parquet");
             let m = put_chunk(&mem, base.as_ref(), &p, &rows, true).await;
-            chunk_size = m.size_bytes;
+            if is_big {
+                big_size = m.size_bytes;
+            } else {
+                chunk_size = m.size_bytes;
+            }
             promote_to_level(base.as_ref(), &p, lvl).await;
             levels.insert(p, lvl);
             original.extend(rows.iter().map(|r| r.id));
@@ -118,6 +133,12 @@ async fn run_case(c: &Case) -> Result<(usize, usize), Fail> {
         original.extend(rows.iter().map(|r| r.id));
     }
     original.sort();
+    if big_size > 0 && chunk_size > 0 && big_size < 2 * chunk_size {
+        return Err(Fail { sig: "C20:machinery:big-chunk-not-big".into(), msg: format!("the large chunk has {big_size} bytes, the others {chunk_size}") });
+    }
+    if chunk_size == 0 {
+        chunk_size = big_size / 3;
+    }
     let mut by_time_cache: BTreeMap<String, Vec<(i64, i64)>> = BTreeMap::new();
     let tsize = if c.target_chunks == 0 { 1 } else { ((chunk_size as usize) * c.target_chunks).saturating_sub(10).max(1) };
     let cfg = CompactorConfig {
@@ -244,26 +265,48 @@ async fn run_case(c: &Case) -> Result<(usize, usize), Fail> {
 pub fn cases(tier: &str) -> Vec<Case> {
     let t = tier == "thorough";
     let mut v = Vec::new();
-    let (ma, mb, m1, m2) = if t { (4, 3, 4, 3) } else { (3, 2, 2, 1) };
+    let (ma, mb, m1, m2) = if t { (5, 3, 5, 4) } else { (3, 2, 2, 1) };
+    let thrs: &[usize] = if t { &[2, 3, 4] } else { &[2, 3] };
+    let tcs: &[usize] = if t { &[0, 2, 3, 100] } else { &[0, 2, 100] };
+    let mls: &[usize] = if t { &[2, 3, 4] } else { &[2, 4] };
     for backend in ["object-store", "in-memory"] {
         for l0_a in 0..=ma {
             for l0_b in 0..=mb {
                 for l1 in 0..=m1 {
                     for l2 in 0..=m2 {
-                        for thr in [2usize, 3] {
-                            for tc in [0usize, 2, 100] {
-                                for ml in [2usize, 4] {
+                        for &thr in thrs {
+                            for &tc in tcs {
+                                for &ml in mls {
                                     if !t && ml == 4 && tc == 2 && l2 > 0 {
                                         continue;
                                     }
-                                    v.push(Case { backend: backend.into(), l0_a, l0_b, l1, l2, l0_merge_threshold: thr, target_chunks: tc, max_levels: ml, l0_c: 0, straddle: false });
+                                    v.push(Case { backend: backend.into(), l0_a, l0_b, l1, l2, l0_merge_threshold: thr, target_chunks: tc, max_levels: ml, l0_c: 0, straddle: false, big: 0 });
+                                    // size spread: one chunk that reaches the level target on its own, first or last in time order
+                                    if tc != 0 && l0_b <= 1 && l2 <= 1 {
+                                        let mut bigs: Vec<u8> = Vec::new();
+                                        if l1 >= 1 {
+                                            bigs.push(1);
+                                        }
+                                        if l1 >= 2 {
+                                            bigs.push(2);
+                                        }
+                                        if l0_a >= 1 {
+                                            bigs.push(4);
+                                        }
+                                        if l1 >= 2 && l0_a >= 1 && t {
+                                            bigs.push(7);
+                                        }
+                                        for big in bigs {
+                                            v.push(Case { backend: backend.into(), l0_a, l0_b, l1, l2, l0_merge_threshold: thr, target_chunks: tc, max_levels: ml, l0_c: 0, straddle: false, big });
+                                        }
+                                    }
                                     // the same with a chunk straddling the hour boundary after hour B, alone and next to
                                     // chunks in the following hour
                                     if l0_a <= 1 && l1 <= 1 && l2 == 0 {
                                         for l0_c in [0usize, 1, 2] {
-                                            v.push(Case { backend: backend.into(), l0_a, l0_b, l1, l2, l0_merge_threshold: thr, target_chunks: tc, max_levels: ml, l0_c, straddle: true });
+                                            v.push(Case { backend: backend.into(), l0_a, l0_b, l1, l2, l0_merge_threshold: thr, target_chunks: tc, max_levels: ml, l0_c, straddle: true, big: 0 });
                                         }
-                                        v.push(Case { backend: backend.into(), l0_a, l0_b, l1, l2, l0_merge_threshold: thr, target_chunks: tc, max_levels: ml, l0_c: 2, straddle: false });
+                                        v.push(Case { backend: backend.into(), l0_a, l0_b, l1, l2, l0_merge_threshold: thr, target_chunks: tc, max_levels: ml, l0_c: 2, straddle: false, big: 0 });
                                     }
                                 }
                             }
@@ -346,7 +389,7 @@ pub fn run(tier: &str) -> i32 {
     rep.set("distinct_nontrivial", nontrivial.load(Ordering::SeqCst));
     rep.set("merges", total_merges.load(Ordering::SeqCst));
     rep.set("max_cycles_to_fixed_point", maxc.load(Ordering::SeqCst));
-    rep.set("rule", "every initial catalog (0..n chunks per level L0 hour A / L0 hour B / L1 / L2, plus variants with 0..2 L0 chunks in the hour after B and an L0 chunk straddling that hour boundary) x l0_merge_threshold {2,3} x level target size {1 byte, ~2 chunks, ~100 chunks} x max_levels {2,4} x both back ends; each run through up to 8 real compaction cycles; states = catalog states between cycles; non-trivial = at least one merge happened");
+    rep.set("rule", "every initial catalog (0..n chunks per level L0 hour A / L0 hour B / L1 / L2, plus variants with 0..2 L0 chunks in the hour after B and an L0 chunk straddling that hour boundary, and variants in which the oldest / newest L1 chunk or an L0 chunk is large enough to reach the level target on its own) x l0_merge_threshold {2,3} (thorough: also 4) x level target size {1 byte, ~2 chunks, ~100 chunks} (thorough: also ~3 chunks) x max_levels {2,4} (thorough: also 3) x both back ends; each run through up to 8 real compaction cycles; states = catalog states between cycles; non-trivial = at least one merge happened");
     rep.push_sample(json!(cs.get(cs.len() / 2)));
     if nontrivial.load(Ordering::SeqCst) == 0 {
         rep.machinery("vacuity guard: no case performed a merge");
